@@ -113,7 +113,7 @@ def validate_option(key, val):
 
     if key in ('numprocesses', 'max_retry', 'max_age', 'max_age_variance',
                'stop_signal'):
-        if not isinstance(val, int):
+        if not isinstance(val, int) or isinstance(val, bool):
             raise MessageError("%r isn't an integer" % key)
 
     elif key in ('warmup_delay', 'retry_in', 'graceful_timeout',):
